@@ -2,7 +2,7 @@
   Ptx.Proofs.Restrict — restricting the rule table changes neither the semantics nor the
   side-conditions that do not mention rules; the restricted table passes the rule side-checks.
 -/
-import Ptx.Proofs.Sound
+import Ptx.Proofs.Step
 import Ptx.Sem.Sem
 namespace Ptx
 namespace LogicData
@@ -36,29 +36,18 @@ theorem restrict_vocab (p : RuleKey → Rule → Bool) (h : L.vocabOKB = true) :
   intro x hx
   exact h x (List.mem_filter.1 hx).1
 
-theorem noQuantPart_noQuant : L.noQuantPart.noQuantRules = true := by
-  unfold noQuantRules noQuantPart restrict
-  simp only [List.all_eq_true]
-  rintro ⟨k, r⟩ hx
-  have := (List.mem_filter.1 hx).2
-  exact this
-
-/-- from the Boolean core check to the hypotheses of the step theorem, for the sound,
-    quantifier-free part of the rule table -/
-theorem soundOK_of_core (h : L.soundCoreB = true) :
-    L.soundPart.noQuantPart.SoundOK ∧ L.soundPart.noQuantPart.noQuantRules = true := by
+/-- from the Boolean core check to the hypotheses of the step theorem, for the sound part of the
+    rule table -/
+theorem soundOK_of_core (h : L.soundCoreB = true) : L.soundPart.SoundOK := by
   simp only [soundCoreB, Bool.and_eq_true, List.isEmpty_iff] at h
   obtain ⟨⟨⟨⟨⟨h1, h2⟩, h3⟩, h4⟩, h5⟩, h6⟩ := h
-  refine ⟨⟨h1, ?_, h2, h3, h4, h5, ?_⟩, noQuantPart_noQuant _⟩
-  · exact restrict_unsound_nil _ _ (soundPart_unsound L)
-  · exact restrict_vocab _ _ (restrict_vocab _ _ h6)
+  exact ⟨h1, soundPart_unsound L, h2, h3, h4, h5, restrict_vocab _ _ h6⟩
 
-/-- with an empty unsound set the table itself (minus quantifier rules) qualifies -/
-theorem soundOK_of_core_nil (h : L.soundCoreB = true) (hu : L.unsoundRules = []) :
-    L.noQuantPart.SoundOK ∧ L.noQuantPart.noQuantRules = true := by
+/-- with an empty unsound set the table itself qualifies -/
+theorem soundOK_of_core_nil (h : L.soundCoreB = true) (hu : L.unsoundRules = []) : L.SoundOK := by
   simp only [soundCoreB, Bool.and_eq_true, List.isEmpty_iff] at h
   obtain ⟨⟨⟨⟨⟨h1, h2⟩, h3⟩, h4⟩, h5⟩, h6⟩ := h
-  exact ⟨⟨h1, restrict_unsound_nil _ _ hu, h2, h3, h4, h5, restrict_vocab _ _ h6⟩, noQuantPart_noQuant _⟩
+  exact ⟨h1, hu, h2, h3, h4, h5, h6⟩
 
 end LogicData
 
